@@ -101,7 +101,7 @@ def spec_violated(rep):
         got = {int(i): [e for e in body.split(";") if e] for i, body in re.findall(r" s(\d+)=\[([^\]]*)\]", line)}
         # expected events by the Spec
         exp = []
-        if f[0] in ("set", "setm"):
+        if f[0] in ("set", "setm", "sete"):
             k, v = f[1], "s." + f[2]
             if k not in vals:
                 exp = [("N", k, v, None)]
@@ -118,7 +118,7 @@ def spec_violated(rep):
                 nv = "i.%d" % (int(vals[k][2:]) + n)
                 exp = [("M", k, nv, vals[k])]
                 vals[k] = nv
-        elif f[0] in ("del", "shift"):
+        elif f[0] in ("del", "shift", "shifte"):
             if f[1] in vals:
                 exp = [("D", f[1], vals[f[1]], None)]
                 del vals[f[1]]
